@@ -479,6 +479,34 @@ Section KernelLaws.
       rewrite !flat_sample, HV. repeat split; try assumption. apply high_lt; [lia|exact Hb].
     - rewrite tsize_eq. apply block_le. exact Hb.
   Qed.
+
+  (* ------------------------------------------------------------ reshape / flatten / copy *)
+  (* shape_ops::reshape: same volume, same batch; the kernel is a plain copy (identity_pairs) *)
+  Definition reshape_ok (sx : tshape) (dims : list nat) : Prop :=
+    Forall (fun d => 0 < d) dims /\ fold_right Nat.mul 1 dims = tvolume sx.
+  Definition reshape_shape (sx : tshape) (dims : list nat) : tshape := mkT dims (tbatch sx).
+  Definition copy_val (n : nat) (x : list T) : list T := mev (identity_pairs n) n [x].
+
+  Theorem copy_sample B V x b : b < B -> block b V (copy_val (B * V) x) = copy_val V (block b V x).
+  Proof.
+    intro Hb. unfold copy_val.
+    apply (mov_sample1 T zero _ _ x (B * V) V V b b).
+    - apply sequential_covers. apply identity_sequential.
+    - apply sequential_covers. apply identity_sequential.
+    - apply identity_in_bounds.
+    - intros d k s Hin. apply identity_spec in Hin. destruct Hin as [Hd [-> ->]]. split; [reflexivity|].
+      apply identity_spec. pose proof (block_le b B V Hb). repeat split. lia.
+    - apply block_le. exact Hb.
+  Qed.
+
+  Theorem reshape_sample sx dims x b : reshape_ok sx dims -> b < tbatch sx ->
+    block b (tvolume (reshape_shape sx dims)) (copy_val (tsize sx) x)
+    = copy_val (tsize (unb sx)) (block b (tvolume sx) x).
+  Proof.
+    intros [_ Hv] Hb. rewrite tsize_unb, tsize_eq.
+    replace (tvolume (reshape_shape sx dims)) with (tvolume sx) by (symmetry; exact Hv).
+    apply copy_sample. exact Hb.
+  Qed.
 End KernelLaws.
 
 Section KernelLaws2.
